@@ -23,7 +23,7 @@ trap 'git -C /repo worktree remove --force "$wt" >/dev/null 2>&1; rm -rf "$wt"' 
 log=$out/confirm.log
 : > "$log"
 cd "$wt"
-flags="-vet=off -count=1"
+flags="-vet=off -count=1 -timeout 60m"
 demoflags="$flags"
 [ -n "$race" ] && demoflags="$flags -race"
 # demo without the change
